@@ -91,6 +91,22 @@ PROPS = {
   'thorough': {'cases': 64000, 'max_size': 400, 'exhaustive': True, 'wall_s': 3000},
   'essential_classes': ['all-accepted', 'refusal-then-more-leaves', 'has-metadata-leaves', 'max-level-set', 'proofs-checked'],
   'assumptions': ['reference forest merge reflects the documented canonical merge'],
+ }, 'C01': {
+  'technique': 'model-based property testing (rapidcheck): reference-built signatures with named semantic mutations against an independent evaluation of the consistency conditions',
+  'level_text': 'A reference aggregator/calendar builds internally consistent signatures of arbitrary shape (1..8 chains, imprint / legacy-id / metadata siblings, level corrections, '
+                'calendar chain for (t,p), publication or authentication record, RFC3161 record, SHA-1 cut-off times); zero to three named semantic mutations are applied to the model; '
+                'the SDK verdict (parse with the empty policy then internal verification, and parse with the internal policy) is compared in both directions with an independent evaluation: '
+                'OK iff no condition is violated, the documented INT code as FAIL for exactly one evaluable violation, never OK otherwise.',
+  'level_note': 'Trusted: ref/sigmodel.cpp (conditions written from the property statement and the KSI format), Crypto++ digests. Metadata children are generated in shortest header form; '
+                'INT-16 is unreachable with the documented algorithm table and is not forced.',
+  'rule': 'rapidcheck choice strings -> reference signature (shape, siblings, corrections, algorithms, times around the SHA-1 cut-off, records) + 0..3 mutations from a 29-kind catalogue '
+          '(chain input / sibling / correction / algorithm / time / index / direction, calendar input / times / directions / extra links, record time / hash, RFC3161 fields, metadata padding variants, '
+          'level overflow). Non-trivial = structural parse succeeded and (some condition violated, or consistent with >= 2 chains or a calendar chain); distinct = distinct (shape, mutation list, violated set).',
+  'quick': {'cases': 32000, 'max_size': 300, 'wall_s': 900},
+  'thorough': {'cases': 160000, 'max_size': 400, 'wall_s': 3000, 'fuzz': {'runs': 120000, 'max_len': 1500, 'jobs': 16}},
+  'essential_classes': ['expect:OK', 'expect:single-violation', 'expect:multi-violation', 'not-computable', 'violated:INT-1', 'violated:INT-2', 'violated:INT-3', 'violated:INT-4', 'violated:INT-5', 'violated:INT-5-shape-impossible',
+                        'violated:INT-6', 'violated:INT-7', 'violated:INT-8', 'violated:INT-9', 'violated:INT-10', 'violated:INT-11', 'violated:INT-12', 'violated:INT-13', 'violated:INT-14', 'violated:INT-15', 'violated:INT-17'],
+  'assumptions': ['reference evaluation reflects the KSI consistency conditions', 'byte-level mutations of the serialization are covered by C10/C12, not here'],
  },
 }
 
